@@ -51,6 +51,330 @@ def nospace(s):
     return re.sub(r"\s+", "", s)
 
 
+# ------------------------------------------------------------------------------------------------
+# (round 5) normalisation of equivalent spellings BEFORE the grammar is applied.  Every rule is a semantics-preserving
+# source-to-source rewrite with explicit side conditions; when a side condition cannot be established the text is left
+# alone and the grammar below fails loudly, exactly as before.
+# ------------------------------------------------------------------------------------------------
+
+_KEYWORDS = {"if", "for", "while", "return", "switch", "sizeof", "static_cast", "decltype", "else", "do", "catch"}
+_ASSIGN_AFTER = re.compile(r"\s*(?:=(?!=)|[-+*/%&|^]=|<<=|>>=|\+\+|--)")
+_SIZE_EXPR = re.compile(r"(?:(?P<recv>[A-Za-z_]\w*)\s*\.\s*)?(?P<acc>rows|cols|size|N|M)\s*\(\s*\)")
+_RESIZERS = r"(?:resize|clear|push_back|pop_back|emplace_back|erase|insert|assign|swap|reserve)"
+# calls without side effects that may appear in / after an inlined initialiser
+_PURE_CALLS = {"Simd::lane", "Simd::lanes", "lane", "lanes", "fvmeta::absreal", "Simd::cond", "Simd::anyTrue", "Simd::allTrue",
+               "Simd::anyFalse", "Simd::allFalse", "Dune::Simd::anyTrue", "rows", "cols"}
+
+
+def _block_end(s, pos):
+    """index of the `}` that closes the block containing position pos"""
+    depth = 0
+    for e in range(pos, len(s)):
+        c = s[e]
+        if c == "{":
+            depth += 1
+        elif c == "}":
+            if depth == 0:
+                return e
+            depth -= 1
+    return -1
+
+
+def _match_paren(s, i):
+    """s[i] == '(' -> index of the matching ')'"""
+    depth = 0
+    for e in range(i, len(s)):
+        if s[e] == "(":
+            depth += 1
+        elif s[e] == ")":
+            depth -= 1
+            if depth == 0:
+                return e
+    return -1
+
+
+def _calls(text):
+    """qualified names that are called in text (identifier followed by `(`), keywords and casts excluded"""
+    res = []
+    for m in re.finditer(r"((?:[A-Za-z_]\w*\s*(?:::|\.)\s*)*[A-Za-z_]\w*)\s*(?:<[^<>();]*>)?\s*\(", text):
+        name = nospace(m.group(1))
+        if name in _KEYWORDS:
+            continue
+        res.append(name)
+    return res
+
+
+def _free_vars(expr):
+    res = set()
+    for m in re.finditer(r"[A-Za-z_]\w*", expr):
+        before = expr[:m.start()].rstrip()
+        after = expr[m.end():].lstrip()
+        if after.startswith("(") or after.startswith("::") or before.endswith("::") or before.endswith(".") or before.endswith("->"):
+            continue
+        res.add(m.group(0))
+    return res
+
+
+def _is_written(x, scope):
+    """is the variable x (or an element of it) assigned / incremented anywhere in scope?  (conservative: yes when unsure)"""
+    xq = re.escape(x)
+    if re.search(r"(?:\+\+|--)\s*%s\b" % xq, scope):
+        return True
+    for m in re.finditer(r"(?<![\w.:>])%s\b" % xq, scope):
+        e = m.end()
+        # skip subscripts x[..][..]
+        while True:
+            r = scope[e:].lstrip()
+            if not r.startswith("["):
+                break
+            e = len(scope) - len(r)
+            depth = 0
+            while e < len(scope):
+                if scope[e] == "[":
+                    depth += 1
+                elif scope[e] == "]":
+                    depth -= 1
+                    if depth == 0:
+                        break
+                e += 1
+            e += 1
+        if _ASSIGN_AFTER.match(scope, e):
+            return True
+    return False
+
+
+def _known_type(ty, expr, before):
+    """the declared type of a by-value const local is the type of its initialiser (so no conversion happens)"""
+    ty, ex = nospace(ty), nospace(expr)
+    if ty == "auto":
+        return True
+    if ty in ("size_type", "typenameDenseMatrix<MAT>::size_type") and re.fullmatch(r"(?:\w+\.)?(?:rows|cols)\(\)", ex):
+        return True
+    if ty == "std::size_t" and re.fullmatch(r"Simd::lanes\([^;]*\)", ex):
+        return True
+    m = re.fullmatch(r"(?:Simd::)?Scalar<(\w+)>", ty)
+    m2 = re.fullmatch(r"Simd::lane\([^,()]+,(\w+)\)", ex)
+    if m and m2 and re.search(r"const\s+%s\s*&\s*%s\s*[,)]" % (m.group(1), m2.group(1)), before[-600:]):
+        return True
+    return False
+
+
+def inline_const_locals(s):
+    """`const T x = E;` (single assignment by construction) is replaced by its initialiser at every use in its scope, when
+    * E has no side effect: only operators without assignment and calls from a list of pure functions / size accessors;
+    * E means the same at every use: E is a size accessor (`A.rows()`, `cols()`, `v.size()`, `Simd::lanes(e)`) and the object is not
+      assigned as a whole, resized or handed to a call inside the scope (assigning ELEMENTS does not change a size) -- or no free
+      variable of E is written between the declaration and the last use and nothing but pure calls happens in between;
+    * no conversion hides in the declaration: T is `auto` or the known type of E; otherwise `static_cast<T>(E)` is substituted
+      (the grammar then sees the cast and fails rather than guess)."""
+    decl = re.compile(r"(?<![\w>])const\s+((?:typename\s+)?[A-Za-z_][\w:]*(?:<[^<>;=(){}]*>)?(?:::\w+)?)\s+([A-Za-z_]\w*)\s*=\s*([^;{}]+);")
+    pos = 0
+    while True:
+        m = decl.search(s, pos)
+        if not m:
+            return s
+        pos = m.end()
+        ty, name, expr = m.group(1), m.group(2), m.group(3).strip()
+        end = _block_end(s, m.end())
+        if end < 0:
+            continue
+        scope = s[m.end():end]
+        uses = list(re.finditer(r"(?<![\w.:>])%s\b(?!\s*\()" % re.escape(name), scope))
+        if not uses:
+            continue
+        if re.search(r"(?<![=!<>])=(?!=)|\+\+|--|[-+*/%&|^]=|<<=|>>=", expr):
+            continue
+        calls = _calls(expr)
+        sm = _SIZE_EXPR.fullmatch(expr)
+        lanes_expr = re.fullmatch(r"Simd::lanes\s*\(.*\)", expr, flags=re.S) and _match_paren(expr, expr.index("(")) == len(expr) - 1
+        ok = False
+        if sm:
+            recv = sm.group("recv")
+            if recv:
+                rq = re.escape(recv)
+                bad = (re.search(r"(?<![\w.:>\]])%s\s*=(?!=)" % rq, scope) or re.search(r"\b%s\s*\.\s*%s\b" % (rq, _RESIZERS), scope)
+                       or re.search(r"[(,]\s*%s\s*[,)]" % rq, scope))
+            else:
+                bad = re.search(r"\*this\s*=(?!=)", scope) or re.search(r"(?<![\w.:>])%s\s*\(" % _RESIZERS, scope) or re.search(r"[(,]\s*\*this\s*[,)]", scope)
+            ok = not bad
+        elif lanes_expr:
+            ok = True      # the lane count is a property of the type
+        elif all(c in _PURE_CALLS for c in calls):
+            upto = scope[:uses[-1].end()]
+            # up to the end of the statement that holds the last use
+            semi = scope.find(";", uses[-1].end())
+            upto = scope[:semi + 1] if semi >= 0 else scope
+            ok = all(c in _PURE_CALLS for c in _calls(upto)) and not any(_is_written(x, upto) for x in _free_vars(expr)) \
+                and not _is_written(name, scope)
+        if not ok:
+            continue
+        atomic = re.fullmatch(r"[\w:.]+(?:<[^<>]*>)?(?:\s*\(.*\))?(?:\s*\[[^\]]*\])*", expr, flags=re.S) is not None
+        repl = expr if _known_type(ty, expr, s[:m.start()]) else "static_cast<%s>(%s)" % (ty, expr)
+        if repl is expr and not atomic:
+            repl = "(" + expr + ")"
+        new_scope = re.sub(r"(?<![\w.:>])%s\b(?!\s*\()" % re.escape(name), lambda _m: repl, scope)
+        s = s[:m.start()] + new_scope + s[end:]
+        pos = m.start()
+
+
+def range_for_to_index(s):
+    """`for (auto l : range(E))` with E of type std::size_t (`S`, `Simd::lanes(..)`) is `for (std::size_t l = 0; l < E; ++l)`"""
+    pos = 0
+    while True:
+        m = re.compile(r"for\s*\(\s*(?:auto|std::size_t)\s+([A-Za-z_]\w*)\s*:\s*range\s*\(").search(s, pos)
+        if not m:
+            return s
+        pos = m.end()
+        close = _match_paren(s, m.end() - 1)
+        if close < 0:
+            continue
+        e = s[m.end():close].strip()
+        m2 = re.match(r"\s*\)", s[close + 1:])
+        if not m2:
+            continue
+        if not (e == "S" or (e.startswith("Simd::lanes") and "(" in e and _match_paren(e, e.index("(")) == len(e) - 1)):
+            continue
+        v = m.group(1)
+        s = s[:m.start()] + "for(std::size_t %s=0; %s<%s; ++%s)" % (v, v, e, v) + s[close + 1 + m2.end():]
+
+
+def element_for_to_index(s):
+    """`for (const M& e : x) BODY` over a `const LoopSIMD<M,S,A>& x` (a std::array<M,S>: the elements x[0] .. x[S-1] in this order) is
+    `for (std::size_t i = 0; i < S; ++i) BODY[e := x[i]]`; e must not be written in BODY."""
+    rx = re.compile(r"for\s*\(\s*(const\s+auto\s*&|auto\s*&&|const\s+(\w+)\s*&|auto)\s*([A-Za-z_]\w*)\s*:\s*([A-Za-z_]\w*)\s*\)\s*")
+    pos = 0
+    while True:
+        m = rx.search(s, pos)
+        if not m:
+            return s
+        pos = m.end()
+        elem_ty, e, x = m.group(2), m.group(3), m.group(4)
+        d = None
+        for d in re.finditer(r"const\s+LoopSIMD<\s*(\w+)\s*,\s*S\s*,\s*\w+\s*>\s*&\s*%s\s*[,)]" % re.escape(x), s[:m.start()]):
+            pass
+        if d is None or len(s[d.end():m.start()]) > 400 or (elem_ty is not None and elem_ty != d.group(1)):
+            continue
+        if s[m.end()] == "{":
+            depth, b = 0, m.end()
+            while b < len(s):
+                if s[b] == "{":
+                    depth += 1
+                elif s[b] == "}":
+                    depth -= 1
+                    if depth == 0:
+                        break
+                b += 1
+            body_end = b + 1
+        else:
+            body_end = s.find(";", m.end()) + 1
+            if body_end <= 0:
+                continue
+        body = s[m.end():body_end]
+        if _is_written(e, body) or re.search(r"\bfor\b|\bwhile\b", body):
+            continue
+        var = "i"
+        while re.search(r"\b%s\b" % var, body):
+            var += "_"
+        body = re.sub(r"(?<![\w.:>])%s\b" % re.escape(e), "%s[%s]" % (x, var), body)
+        s = s[:m.start()] + "for(std::size_t %s=0; %s<S; ++%s)" % (var, var, var) + body + s[body_end:]
+        pos = m.start() + 1
+
+
+def if_return_to_conditional(s):
+    """`if (c) return a; else return b;` (also without `else`, with braces) is `return c ? a : b;` when a and b are parameters declared
+    with the same type (so that the conditional operator converts nothing)"""
+    rx = re.compile(r"if\s*\(\s*([A-Za-z_]\w*)\s*\)\s*\{?\s*return\s+([A-Za-z_]\w*)\s*;\s*\}?\s*(?:else\s*)?\{?\s*return\s+([A-Za-z_]\w*)\s*;\s*\}?")
+    def repl(m):
+        c, a, b = m.groups()
+        before = s[:m.start()][-400:]
+        ta = re.findall(r"([\w:<>]+(?:\s+const)?\s*&?)\s*%s\s*[,)]" % re.escape(a), before)
+        tb = re.findall(r"([\w:<>]+(?:\s+const)?\s*&?)\s*%s\s*[,)]" % re.escape(b), before)
+        if not ta or not tb or nospace(ta[-1]) != nospace(tb[-1]):
+            return m.group(0)
+        txt = m.group(0)
+        # braces must balance inside the matched text (we may have swallowed the function's closing brace)
+        extra = txt.count("}") - txt.count("{")
+        return "return %s ? %s : %s;" % (c, a, b) + "}" * max(extra, 0)
+    return rx.sub(repl, s)
+
+
+def continue_guard_to_if(s):
+    """inside a loop body `{ … if (c) continue; REST }` is `{ … if (!(c)) { REST } }`; `!(a == b)` is written `a != b`"""
+    rx = re.compile(r"if\s*\(")
+    pos = 0
+    while True:
+        m = rx.search(s, pos)
+        if not m:
+            return s
+        pos = m.end()
+        close = _match_paren(s, m.end() - 1)
+        if close < 0:
+            continue
+        m2 = re.match(r"\s*continue\s*;", s[close + 1:])
+        if not m2:
+            continue
+        cond = s[m.end():close].strip()
+        stmt_end = close + 1 + m2.end()
+        end = _block_end(s, stmt_end)
+        if end < 0:
+            continue
+        # the enclosing block must be the body of a loop: walk back to its `{` and look for `for (...)` / `while (...)` in front
+        depth, b = 0, m.start() - 1
+        while b >= 0:
+            if s[b] == "}":
+                depth += 1
+            elif s[b] == "{":
+                if depth == 0:
+                    break
+                depth -= 1
+            b -= 1
+        head = s[:b].rstrip()
+        if not head.endswith(")"):
+            continue
+        # find the matching "(" backwards
+        depth, o = 0, len(head) - 1
+        while o >= 0:
+            if head[o] == ")":
+                depth += 1
+            elif head[o] == "(":
+                depth -= 1
+                if depth == 0:
+                    break
+            o -= 1
+        if not re.search(r"\b(?:for|while)\s*$", head[:o]):
+            continue
+        rest = s[stmt_end:end]
+        if not rest.strip():
+            continue
+        mc = re.fullmatch(r"([^=!<>&|?]+?)\s*(==|!=)\s*([^=!<>&|?]+)", cond)
+        if mc:
+            neg = "%s%s%s" % (mc.group(1), "!=" if mc.group(2) == "==" else "==", mc.group(3))
+        elif re.fullmatch(r"!\s*\w+", cond):
+            neg = cond.lstrip("! ")
+        else:
+            neg = "!(%s)" % cond
+        s = s[:m.start()] + "if(%s){%s}" % (neg, rest) + s[end:]
+        pos = m.start() + 1
+
+
+def normalise(src):
+    """comment-free source -> the same program in the spelling the grammar is written for"""
+    src = inline_const_locals(src)
+    src = range_for_to_index(src)
+    src = element_for_to_index(src)
+    src = if_return_to_conditional(src)
+    src = continue_guard_to_if(src)
+    return src
+
+
+def rename_local(body, decl_re, canonical):
+    """alpha-renaming: the local declared by decl_re (one group: its name) is called `canonical`"""
+    m = re.search(decl_re, body)
+    if not m or m.group(1) == canonical or re.search(r"\b%s\b" % canonical, body):
+        return body
+    return re.sub(r"(?<![\w.:>])%s\b" % re.escape(m.group(1)), canonical, body)
+
+
 SYMBOL_NAMES = {
     "+": "add", "-": "sub", "*": "mul", "/": "div", "%": "mod", "&": "band", "|": "bor", "^": "bxor",
     "<<": "shl", ">>": "shr", "<": "lt", ">": "gt", "<=": "le", ">=": "ge", "==": "eq", "!=": "ne",
@@ -224,7 +548,7 @@ def form_name(args):
 
 
 def translate_loop_hh(src):
-    src = join_continuations(strip_comments(src))
+    src = normalise(join_continuations(strip_comments(src)))
     lines = src.split("\n")
     macros = {}     # name -> (param, body)
     order = []
@@ -264,6 +588,8 @@ def translate_loop_hh(src):
             continue
         seen = {}
         for sig, fbody in function_chunks(body):
+            # alpha-renaming: the result local may have any name
+            fbody = rename_local(fbody, r"(?:LoopSIMD<[\w,\s]+>|Simd::Mask<\s*LoopSIMD<T,S,A>\s*>)\s+([A-Za-z_]\w*)\s*;", "out")
             fors = FOR_RE.findall(fbody)
             if not fors:
                 continue
@@ -321,6 +647,7 @@ def translate_loop_hh(src):
 
     # operator!
     sig, body = find_function(r"auto\s+operator!\s*\(\s*\)\s*const\s*\{", "operator!")
+    body = rename_local(body, r"(?:LoopSIMD<[\w,\s]+>|Simd::Mask<\s*LoopSIMD<T,S,A>\s*>)\s+([A-Za-z_]\w*)\s*;", "out")
     fors = FOR_RE.findall(body)
     if len(fors) != 1:
         raise TranslateError("operator!: loop not found")
@@ -336,9 +663,10 @@ def translate_loop_hh(src):
     if not m:
         raise TranslateError("cond: parameters changed: %r" % sig)
     cnames = list(m.groups())
-    b_ = nospace(body)
-    m = re.fullmatch(r"LoopSIMD<T,S,A>out;for\(auto(\w+):range\(Simd::lanes\(%s\)\)\)Simd::lane\(([^,]+),out\)="
-                     r"Simd::lane\(([^,]+),(\w+)\)\?Simd::lane\(([^,]+),(\w+)\):Simd::lane\(([^,]+),(\w+)\);returnout;" % cnames[0], b_)
+    b_ = nospace(rename_local(body, r"LoopSIMD<T,S,A>\s+([A-Za-z_]\w*)\s*;", "out"))
+    # (`for (auto l : range(Simd::lanes(mask)))` has been normalised to the index loop)
+    m = re.fullmatch(r"LoopSIMD<T,S,A>out;for\(std::size_t(\w+)=0;\1<Simd::lanes\(%s\);(?:\+\+\1|\1\+\+)\)\{?Simd::lane\(([^,]+),out\)="
+                     r"Simd::lane\(([^,]+),(\w+)\)\?Simd::lane\(([^,]+),(\w+)\):Simd::lane\(([^,]+),(\w+)\);\}?returnout;" % cnames[0], b_)
     if not m:
         raise TranslateError("cond: body outside the grammar: %r" % body)
     var, dix, cix, cn, tix, tn, eix, en = m.groups()
@@ -354,22 +682,29 @@ def translate_loop_hh(src):
     # isNaN / isInf / isFinite
     for fn in ("isNaN", "isInf", "isFinite"):
         sig, body = find_function(r"auto\s+%s\s*\(\s*const\s+LoopSIMD<T,S,A>\s*&v\s*,\s*PriorityTag<3>\s*,\s*ADLTag\s*\)\s*\{" % fn, fn)
-        fors = RANGE_FOR_RE.findall(body)
+        body = rename_local(body, r"Simd::Mask<\s*LoopSIMD<T,S,A>\s*>\s+([A-Za-z_]\w*)\s*;", "out")
+        fors = FOR_RE.findall(body)        # (`for (auto l : range(S))` has been normalised to the index loop)
         if len(fors) != 1:
             raise TranslateError("%s: loop not found" % fn)
-        var, stmt = fors[0]
+        var, lo, himinus, stmt = fors[0]
         dst, inplace, args = parse_statement(stmt, var, "Dune::" + fn, ["v"], [])
-        loops["loop_%s" % fn] = loop_term(0, 0, dst, inplace, args)
+        if nospace(FOR_RE.sub("", body)) != "Simd::Mask<LoopSIMD<T,S,A>>out;returnout;":
+            raise TranslateError("%s: unexpected statements" % fn)
+        loops["loop_%s" % fn] = loop_term(lo, himinus, dst, inplace, args)
 
     # mask reductions
     reds = {}
     for fn in ("anyTrue", "allTrue", "anyFalse", "allFalse"):
         sig, body = find_function(r"bool\s+%s\s*\(\s*ADLTag<5>\s*,\s*const\s+LoopSIMD<M,S,A>&\s*mask\s*\)\s*\{" % fn, fn)
-        b = nospace(body)
-        m = re.fullmatch(r"boolout=(true|false);for\(std::size_t(\w+)=(\d+);\2<S(?:-(\d+))?;\2\+\+\)\{out(\|=|&=)Simd::(\w+)\(mask\[([^\]]+)\]\);\}returnout;", b)
+        b = nospace(rename_local(body, r"\bbool\s+([A-Za-z_]\w*)\s*=", "out"))
+        # free: the name of the accumulator, `i++` / `++i`, braces, `out |= x` / `out = out | x` (NOT `||`: that would skip calls),
+        # and (normalised above) a range-for over the entries of the mask
+        m = re.fullmatch(r"boolout=(true|false);for\(std::size_t(\w+)=(\d+);\2<S(?:-(\d+))?;(?:\2\+\+|\+\+\2)\)\{?"
+                         r"(?:out(\|=|&=)|out=out(\||&)(?!\||&))Simd::(\w+)\(mask\[([^\]]+)\]\);\}?returnout;", b)
         if not m:
             raise TranslateError("%s: body outside the grammar: %r" % (fn, body))
-        init, var, lo, himinus, comb, inner, ix = m.groups()
+        init, var, lo, himinus, comb, comb2, inner, ix = m.groups()
+        comb = comb or (comb2 + "=")
         if inner not in ("anyTrue", "allTrue", "anyFalse", "allFalse"):
             raise TranslateError("%s: unknown inner reduction %s" % (fn, inner))
         reds[fn] = "{ init := %s, isOr := %s, inner := .%s, lo := %s, hiMinus := %s, ix := %s }" % (
@@ -424,7 +759,7 @@ def translate_loop_hh(src):
 # ------------------------------------------------------------------------------------------------
 
 def translate_interface(src):
-    src = strip_comments(src)
+    src = normalise(strip_comments(src))
     m = re.search(r"V\s+cond\s*\(\s*bool\s+(\w+)\s*,\s*const\s+V\s*&\s*(\w+)\s*,\s*const\s+V\s*&\s*(\w+)\s*\)\s*\{\s*return\s+(\w+)\s*\?\s*(\w+)\s*:\s*(\w+)\s*;\s*\}", src)
     if not m:
         raise TranslateError("scalar cond(bool, V, V) changed")
@@ -467,7 +802,7 @@ def translate_standard(src):
 
 def translate_defaults(src):
     """defaults.hh: the default implementations every SIMD type inherits unless it overloads them"""
-    ns = nospace(strip_comments(src))
+    ns = nospace(normalise(strip_comments(src)))
     d = {}
     if "boolanyTrue(ADLTag<0>,constMask&mask)=delete;" not in ns:
         raise TranslateError("defaults.hh: anyTrue is no longer the one mandatory reduction")
@@ -480,8 +815,8 @@ def translate_defaults(src):
     # horizontal max / min: m = lane(K, v); for l = LO .. lanes(v): if (m < lane(l, v) | lane(l, v) < m) m = lane(l, v)
     for fn in ("max", "min"):
         m = re.search(r"auto%s\(ADLTag<0>,constV&v\)\{Scalar<V>m=Simd::lane\((\d+),v\);"
-                      r"for\(std::size_tl=(\d+);l<Simd::lanes\(v\)(?:-(\d+))?;\+\+l\)"
-                      r"if\((m<Simd::lane\(l,v\)|Simd::lane\(l,v\)<m)\)m=Simd::lane\(l,v\);returnm;\}" % fn, ns)
+                      r"for\(std::size_tl=(\d+);l<Simd::lanes\(v\)(?:-(\d+))?;(?:\+\+l|l\+\+)\)\{?"
+                      r"if\((m<Simd::lane\(l,v\)|Simd::lane\(l,v\)<m)\)\{?m=Simd::lane\(l,v\);\}?\}?returnm;\}" % fn, ns)
         if not m:
             raise TranslateError("defaults.hh: horizontal %s outside the grammar" % fn)
         d["h" + fn] = (int(m.group(1)), int(m.group(2)), int(m.group(3) or 0), m.group(4).startswith("m<"))
@@ -506,7 +841,7 @@ def translate_defaults(src):
     if "constexprVimplCast(ADLTag<0>,MetaType<V>,constV&u){returnu;}" not in ns:
         raise TranslateError("defaults.hh: implCast to the same type changed")
     m = re.search(r"constexprVimplCast\(ADLTag<0>,MetaType<V>,constU&u\)\{Vresult\(Simd::Scalar<V>\(0\)\);"
-                  r"for\(autol:range\(Simd::lanes\(u\)\)\)Simd::lane\(([^,]+),result\)=Simd::lane\(([^,]+),u\);returnresult;\}", ns)
+                  r"for\(std::size_tl=0;l<Simd::lanes\(u\);(?:\+\+l|l\+\+)\)\{?Simd::lane\(([^,]+),result\)=Simd::lane\(([^,]+),u\);\}?returnresult;\}", ns)
     if not m:
         raise TranslateError("defaults.hh: implCast outside the grammar")
     d["implCast"] = (ix_expr(m.group(1), "l"), ix_expr(m.group(2), "l"))
@@ -519,7 +854,7 @@ def translate_densematrix(src):
     """densematrix.hh: the singularity tests the configuration DUNE_FMatrix_WITH_CHECKING compiles into the closed forms of
     solve() (n = 1, 2, 3) and invert() (n = 1, 2): which mask reduction, which comparison, what is thrown.  These are the places
     where a lane mask decides for all lanes at once."""
-    ns = nospace(strip_comments(src))
+    ns = nospace(normalise(strip_comments(src)))
     def body_of(sig_re, what):
         m = re.search(sig_re, ns)
         if not m:
@@ -638,7 +973,7 @@ def translate_lu(src):
     the three callers and the `cond` that masks singular lanes of the determinant.  The straight-line arithmetic in between has to
     have the form the hand-written model follows (identifiers may be renamed, `k++`/`++k`, braces around single statements,
     `a -= f*b` / `a = a - f*b`, commuted factors and the operand order of `swap` are free); anything else fails loudly."""
-    ns = nospace(strip_comments(src))
+    ns = nospace(normalise(strip_comments(src)))
     d = {}
     body = _body_after(ns, r"inlinevoidDenseMatrix<MAT>::luDecomposition\(DenseMatrix<MAT>&A,Funcfunc,Mask&nonsingularLanes,"
                            r"boolthrowEarly,booldoPivoting\)\{", "definition of luDecomposition")
@@ -811,8 +1146,9 @@ def translate_lu(src):
         raise TranslateError("densematrix.hh: nonsingularLanes must start as all-true in solve/invert/determinant")
     m = re.search(r"luDecomposition\(A,ElimDet\(det\),nonsingularLanes,\w+,doPivoting\);"
                   r"for\(size_type(?P<i>" + _ID + r")=0;(?P=i)<rows\(\);" + _inc("i") + r"\)\{?(?:det\*=A\[(?P=i)\]\[(?P=i)\]|det=det\*A\[(?P=i)\]\[(?P=i)\]);\}?"
-                  r"det=Simd::cond\(nonsingularLanes,(?P<t>det|field_type\(0\)),(?P<f>det|field_type\(0\))\);returndet;\}", ns)
-    if not m:
+                  r"(?P<asg>det=|return)Simd::cond\(nonsingularLanes,(?P<t>det|field_type\(0\)),(?P<f>det|field_type\(0\))\);(?P<ret>returndet;)?\}", ns)
+    # `det = cond(..); return det;` or `return cond(..);` (cond(mask, V, V) returns a V = field_type, the type of det)
+    if not m or (m.group("asg") == "det=") != bool(m.group("ret")):
         raise TranslateError("densematrix.hh: determinant(): product of the diagonal / masking of singular lanes outside the grammar")
     d["detMaskTDet"] = (m.group("t") == "det")
     d["detMaskFDet"] = (m.group("f") == "det")
@@ -828,7 +1164,7 @@ def translate_kernels(src):
     which loop runs over the rows, which index addresses the result, + or -, scaled or not, conjugated or not is DATA (the model
     executes it, the lane-wise theorem holds for every such shape).  Any other statement in a kernel -- a test, a mask reduction, an
     early return, a second update -- is outside the grammar and fails loudly."""
-    ns = nospace(strip_comments(src))
+    ns = nospace(normalise(strip_comments(src)))
     res = {}
     for name in KERNEL_NAMES:
         sig = r"void%s\((?P<al>consttypenameFieldTraits<Y>::field_type&alpha,)?constX&x,Y&y\)const\{" % name
